@@ -672,7 +672,8 @@ inline GenOpts makeProfile(Rng &rng, const std::string &name) {
     o.scale = (int)rng.pick(std::vector<int>{100, 1000, 5000, 13000});
   } else if (name == "wide") {
     o.scale = (int)rng.pick(std::vector<int>{1000, 10000, 60000});
-    o.rowHeightOverride = (int)rng.pick(std::vector<int>{40, 100, 400, 1000});
+    // keep the number of density bins per row in the low thousands (width / (5 x height))
+    o.rowHeightOverride = o.scale == 1000 ? (int)rng.pick(std::vector<int>{40, 100}) : o.scale == 10000 ? (int)rng.pick(std::vector<int>{100, 400}) : (int)rng.pick(std::vector<int>{400, 1000});
     o.maxCells = std::min(o.maxCells, 20);
   } else if (name == "degenerate") {
     int k = (int)rng.range(0, 5);
